@@ -548,13 +548,19 @@ Definition img (s : st) (o : op) (n : path) : option path :=
   match o with
   | Rename oldp newp =>
       if path_eqb oldp newp then Some n
-      else match strip_prefix oldp n with
-           | Some r => Some (newp ++ r)
-           | None => match strip_prefix newp n with
-                     | Some r => match nfind s (oldp ++ r) with Some _ => None | None => Some n end
-                     | None => Some n
-                     end
-           end
+      else if path_eqb oldp n then Some newp
+      else
+        (* a directory takes the names below it along; a moved name replaces the one at its target *)
+        let old_is_dir := match nfind s oldp with Some e => h_dir e | None => false end in
+        match (if old_is_dir then strip_prefix oldp n else None) with
+        | Some r => Some (newp ++ r)
+        | None =>
+            if path_eqb newp n then None
+            else match (if old_is_dir then strip_prefix newp n else None) with
+                 | Some r => match nfind s (oldp ++ r) with Some _ => None | None => Some n end
+                 | None => Some n
+                 end
+        end
   | Delete p _ _ _ | Unlink p => if is_prefix p n then None else Some n
   | Create p _ _ | Update p _ => if path_eqb p n then None else Some n
   | Link _ newp _ => if path_eqb newp n then None else Some n
@@ -671,6 +677,22 @@ Definition c21_op_ok (ev : env) (s : st) (o : op) : bool :=
       match find_entry ev s (parent newp) with Some de => h_dir de | None => false end
   | Append p _ | Write p _ _ _ => file_at ev s p
   | _ => true
+  end.
+
+(* the hypothesis of the partial theorems: the assumptions hold, no trigger fires, and a renamed
+   entry is a file (what a rename does to a directory tree is the subject of C18) *)
+Definition c21_quiet (ev : env) (s : st) (o : op) : bool :=
+  c21_op_ok ev s o &&
+  negb (trig_rename_linked s o) && negb (trig_overwrite_linked s o) && negb (trig_rec_nodata ev s o) &&
+  match o with
+  | Rename oldp _ => match nfind s oldp with Some e => negb (h_dir e) | None => true end
+  | _ => true
+  end.
+
+Fixpoint c21_hist_quiet (ev : env) (s : st) (ops : list op) : bool :=
+  match ops with
+  | [] => true
+  | o :: ops' => c21_quiet ev s o && c21_hist_quiet ev (st_of (step ev s o)) ops'
   end.
 
 Fixpoint c21_hist_ok (ev : env) (s : st) (ops : list op) : bool :=
